@@ -24,12 +24,13 @@ DEFAULT_EXTERN = [r'nondet_\w+', r'verif_\w+', r'__CPROVER_\w+', r'malloc|free|c
 class Unit:
     """One harness translation unit, lowered once; several entries (obligations) may share it."""
     def __init__(self, name, src, entries, defines=None, aliases=None, stubs=None, noinline=None, extra_roots=None,
-                 throw_ok=False, clang_flags=None, object_bits=None, allow_extern=None):
+                 throw_ok=False, clang_flags=None, object_bits=None, allow_extern=None, lemmas=None):
         self.name = name; self.src = src; self.entries = list(entries)
         self.defines = dict(defines or {}); self.aliases = dict(aliases or {}); self.stubs = list(stubs or [])
         self.noinline = list(noinline or []); self.extra_roots = list(extra_roots or [])
         self.throw_ok = throw_ok; self.clang_flags = list(clang_flags or []); self.object_bits = object_bits
         self.allow_extern = list(allow_extern or []); self.externals = []
+        self.lemmas = list(lemmas or [])    # obligation-id prefixes that justify this unit's aliases
         self.dir = None; self.error = None; self.lower_s = 0.0; self.functions = []
 
 class Ob:
@@ -105,7 +106,8 @@ def lower_unit(u, scratch):
     cur = front('h', [])
     if not cur: return False
     if not front('u', ['-fsanitize=undefined', '-fno-sanitize=vptr,function', '-fno-sanitize-recover=undefined']): return False
-    rc, out, _, _ = run(['opt-14', '-S', '-O1', '-vectorize-loops=false', '-vectorize-slp=false', '-unroll-threshold=0', cur, '-o', 'h.ll'], cwd=d, timeout=600)
+    rc, out, _, _ = run(['opt-14', '-S', '-O1', '-vectorize-loops=false', '-vectorize-slp=false', '-unroll-threshold=0', '-disable-loop-idiom-all',
+                         '-phi-node-folding-threshold=0', '-two-entry-phi-node-folding-threshold=0', cur, '-o', 'h.ll'], cwd=d, timeout=600)
     if rc != 0: return fail('opt -O1', out)
     # 2. ir2c pass 1
     args = list(alias_args)
@@ -190,7 +192,7 @@ def run_native(u, exe, entry, param, vec, seed=1, keepgoing=False, tag='v'):
     rc, out, _, _ = run(cmd, cwd=u.dir, timeout=120, env=env)
     return rc, out.strip()
 
-def cbmc_cmd(u, ob, witness):
+def cbmc_cmd(u, ob, witness, disabled=()):
     cmd = ['cbmc', os.path.join(u.dir, 'gen.c'), os.path.join(TOOLS, 'cbmc_rt.c'), '-I', TOOLS, '--function', ob.entry,
            '-DVERIF_PARAM=%d' % ob.param, '--unwind', str(ob.unwind), '--trace', '--verbosity', '8']
     if ob.unwindset: cmd += ['--unwindset', ob.unwindset]
@@ -199,7 +201,7 @@ def cbmc_cmd(u, ob, witness):
     if witness:
         cmd += ['-DWITNESS', '--no-standard-checks', '--drop-unused-functions', '--no-malloc-may-fail', '--stop-on-fail', '--property', 'verif_end.assertion.1']
     else:
-        cmd += CBMC_CHECKS + ob.extra_flags
+        cmd += [c for c in CBMC_CHECKS if c not in disabled] + ob.extra_flags + ['--stop-on-fail']
         if ob.backend == 'cadical': cmd += ['--sat-solver', 'cadical']
         elif ob.backend == 'kissat': cmd += ['--external-sat-solver', 'kissat']
     return cmd
@@ -244,39 +246,57 @@ def check_ob(ob, seed, known):
         if vec is wvec and sd == 0 and not o1.startswith('END'):
             r['status'] = 'error'; r['detail'] = 'witness vector does not reach the end natively: "%s"' % o1[-300:]; r['wall_s'] = time.time() - t0; return r
     r['tv_vectors'] = tv
-    # --- the query
-    cmd = cbmc_cmd(u, ob, False)
-    rc, out, dt, _ = run(cmd, cwd=u.dir, timeout=ob.timeout, mem_gb=ob.mem_gb)
-    r['vars'], r['clauses'], r['solver_s'] = stats(out) if rc != 'timeout' else (0, 0, 0.0)
-    r['cbmc_s'] = dt
-    r['cmd'] = ' '.join(cmd).replace(u.dir, '$UNIT')
-    if rc == 'timeout':
-        r['status'] = 'undecided'; r['detail'] = 'query timed out after %ds' % ob.timeout
-    elif 'VERIFICATION SUCCESSFUL' in out:
-        r['status'] = 'discharged'
-        r['properties'] = len(re.findall(r':\s+SUCCESS\s*$', out, re.M))
-    elif 'VERIFICATION FAILED' in out:
-        fp = failed_props(out)
-        vec = parse_vector(out)
-        r['cex'] = vec[:256]; r['failed_props'] = ['%s: %s' % f for f in fp][:10]
-        unwinding = [f for f in fp if 'unwinding assertion' in f[1]]
-        # replay against the real code
-        rc1, o1 = run_native(u, 'exe_native', ob.entry, ob.param, vec, 0, keepgoing=True, tag='cex')
-        rc2, o2 = run_native(u, 'exe_ubsan', ob.entry, ob.param, vec, 0, keepgoing=True, tag='cex')
-        r['replay_native'] = o1[-600:]; r['replay_ubsan'] = o2[-1200:]
-        labels = re.findall(r'ASSERT-FAIL (.*)', o1)
-        ub = 'runtime error' in o2
-        if unwinding and len(unwinding) == len(fp):
-            r['status'] = 'error'; r['detail'] = 'unwinding bound too small: ' + '; '.join(f[0] for f in unwinding)
-        elif labels or ub:
-            r['status'] = 'violated'
-            r['what'] = ('assertion "%s"' % labels[0]) if labels else ('undefined behaviour: ' + re.findall(r'runtime error: (.*)', o2)[0][:200])
-            r['label'] = labels[0] if labels else 'UB:' + re.sub(r'[^A-Za-z0-9:._ -]', '', re.findall(r'([\w./]+:\d+):\d+: runtime error', o2)[0].replace(REPO + '/', '') if re.findall(r'([\w./]+:\d+):\d+: runtime error', o2) else 'UB')
+    # --- the query.  LLVM may speculate an arithmetic instruction whose out-of-range result is unused (poison, not UB in the
+    # source).  CBMC's overflow/shift checks then fire on the generated C although the real program has no UB there: such a
+    # counterexample does not replay under UBSan; the check class is then switched off for this obligation and the query
+    # repeated (recorded in the evidence), so that the verdict on the harness assertions is still obtained.
+    disabled = []
+    for attempt in range(4):
+        cmd = cbmc_cmd(u, ob, False, disabled)
+        rc, out, dt, _ = run(cmd, cwd=u.dir, timeout=ob.timeout, mem_gb=ob.mem_gb)
+        r['vars'], r['clauses'], r['solver_s'] = stats(out) if rc != 'timeout' else (0, 0, 0.0)
+        r['cbmc_s'] = dt
+        r['cmd'] = ' '.join(cmd).replace(u.dir, '$UNIT')
+        retry = False
+        if rc == 'timeout':
+            r['status'] = 'undecided'; r['detail'] = 'query timed out after %ds' % ob.timeout
+        elif 'VERIFICATION SUCCESSFUL' in out:
+            r['status'] = 'discharged'
+            r['properties'] = len(re.findall(r':\s+SUCCESS\s*$', out, re.M))
+        elif 'VERIFICATION FAILED' in out:
+            fp = failed_props(out)
+            viol = re.search(r'Violated property:\s*\n\s*file (\S+) function (\S+) line (\d+)[^\n]*\n\s*(.*)', out)
+            if not fp and viol: fp = [('%s.%s' % (viol.group(2), viol.group(3)), viol.group(4).strip())]
+            vec = parse_vector(out)
+            r['cex'] = vec[:256]; r['failed_props'] = ['%s: %s' % f for f in fp][:10]
+            unwinding = [f for f in fp if 'unwinding assertion' in f[1] or 'recursion unwinding' in f[1]]
+            rc1, o1 = run_native(u, 'exe_native', ob.entry, ob.param, vec, 0, keepgoing=True, tag='cex')
+            rc2, o2 = run_native(u, 'exe_ubsan', ob.entry, ob.param, vec, 0, keepgoing=True, tag='cex')
+            r['replay_native'] = o1[-600:]; r['replay_ubsan'] = o2[-1200:]
+            labels = re.findall(r'ASSERT-FAIL (.*)', o1)
+            ub = 'runtime error' in o2
+            if unwinding and len(unwinding) == len(fp):
+                r['status'] = 'error'; r['detail'] = 'unwinding bound too small: ' + '; '.join(f[0] for f in unwinding)
+            elif labels or ub:
+                r['status'] = 'violated'
+                sites = re.findall(r'([\w./+-]+:\d+):\d+: runtime error', o2)
+                r['what'] = ('assertion "%s"' % labels[0]) if labels else ('undefined behaviour: ' + re.findall(r'runtime error: (.*)', o2)[0][:200])
+                r['label'] = labels[0] if labels else 'UB:' + (sites[0].replace(REPO + '/', '') if sites else 'unknown')
+            else:
+                cls = None
+                txt = ' '.join(f[1] for f in fp)
+                if 'shift distance' in txt or 'shift operand' in txt: cls = '--undefined-shift-check'
+                elif 'arithmetic overflow' in txt: cls = '--signed-overflow-check'
+                elif 'pointer arithmetic' in txt or 'pointer overflow' in txt: cls = '--pointer-overflow-check'
+                if cls and cls not in disabled and rc1 == 0 and rc2 == 0 and o1 == o2:
+                    disabled.append(cls); retry = True
+                    r.setdefault('speculative_poison_ignored', []).append('%s (no UB on the real code: UBSan replay clean; %s switched off for this obligation)' % ('; '.join('%s: %s' % f for f in fp[:2]), cls))
+                else:
+                    r['status'] = 'error'
+                    r['detail'] = 'counterexample does not reproduce on the real code (encoding mismatch or pointer-model-only failure): ' + '; '.join('%s: %s' % f for f in fp[:5])
         else:
-            r['status'] = 'error'
-            r['detail'] = 'counterexample does not reproduce on the real code (encoding mismatch or pointer-model-only failure): ' + '; '.join('%s: %s' % f for f in fp[:5])
-    else:
-        r['status'] = 'error'; r['detail'] = 'cbmc gave no verdict (rc=%s):\n%s' % (rc, out[-3000:])
+            r['status'] = 'error'; r['detail'] = 'cbmc gave no verdict (rc=%s):\n%s' % (rc, out[-3000:])
+        if not retry: break
     r['wall_s'] = time.time() - t0
     if r['status'] in ('error',) and rc != 'timeout':
         r['cbmc_tail'] = out[-1500:]
@@ -305,8 +325,19 @@ def run_property(pid, units, obs, tier, seed, level_text, trusted_base, extra_as
     try:
         with ThreadPoolExecutor(max_workers=jobs) as ex:
             list(ex.map(lambda u: lower_unit(u, scratch), used_units))
+        def one(o):
+            r = check_ob(o, seed, known)
+            log('  [%s] %s %s %.0fs %s' % (pid, o.oid, r['status'], r['wall_s'], (r.get('what') or r.get('detail') or '')[:200].replace('\n', ' | ')))
+            return r
         with ThreadPoolExecutor(max_workers=jobs) as ex:
-            list(ex.map(lambda o: check_ob(o, seed, known), obs))
+            list(ex.map(one, obs))
+        # proved substitutions: dependants are void unless every lemma obligation of their unit is discharged
+        for o in obs:
+            if os.environ.get('VERIF_NOLEMMA'): break      # development only (partial runs)
+            for lem in o.unit.lemmas:
+                ls = [x for x in obs if x.oid.startswith(lem)]
+                if o.result['status'] == 'discharged' and (not ls or any(x.result['status'] != 'discharged' for x in ls)):
+                    o.result['status'] = 'undecided'; o.result['detail'] = 'depends on substitution lemma %s which is not discharged in this run' % lem
         results = [o.result for o in obs]
         violations = []; knownhits = []; errors = []; undecided_core = []
         os.makedirs(os.path.join(VERIF, 'replays'), exist_ok=True)
